@@ -104,6 +104,20 @@ def run_vdriver(lean_cases_path, out_path, log):
     return p.returncode == 0
 
 
+def big_stack():
+    """preexec_fn for the Lean driver: the executable specification is continuation-passing, so its native
+    stack grows with the number of search steps; give it 1 GiB instead of the default 8 MiB"""
+    import resource
+    soft, hard = resource.getrlimit(resource.RLIMIT_STACK)
+    want = 1 << 30
+    if hard != resource.RLIM_INFINITY:
+        want = min(want, hard)
+    try:
+        resource.setrlimit(resource.RLIMIT_STACK, (want, hard))
+    except Exception:
+        pass
+
+
 def run_vdriver_parallel(lean_cases_path, out_path, log, jobs=16):
     """split the case file into chunks and run several driver processes"""
     exe = os.path.join(LEAN, ".lake", "build", "bin", "vdriver")
@@ -114,7 +128,8 @@ def run_vdriver_parallel(lean_cases_path, out_path, log, jobs=16):
     chunks = [lines[i::jobs] for i in range(jobs)]
     procs = []
     for ch in chunks:
-        p = subprocess.Popen([exe], stdin=subprocess.PIPE, stdout=subprocess.PIPE, stderr=subprocess.PIPE, text=True)
+        p = subprocess.Popen([exe], stdin=subprocess.PIPE, stdout=subprocess.PIPE, stderr=subprocess.PIPE, text=True,
+                             preexec_fn=big_stack)
         procs.append((p, ch))
     import threading
     outs = [None] * len(procs)
